@@ -601,6 +601,68 @@ func (w *world) GenX(r *rng.R, opts p.Options) []client.Object {
 			w.tags["x-policy-foreign-svc"]++
 		}
 	}
+	// policies whose targetRefs carry a FOREIGN API group but a kind + name that collide with objects of ours (a Knative
+	// `Service`, another project's `HTTPRoute` / `Gateway`): processPolicies must compare group AND kind. Alone, and mixed
+	// with one core/gateway-group ref to an object that does not exist (what the CRDs' CEL rules still admit).
+	fgroups := []string{"serving.knative.dev", "example.com", "networking.istio.io", "Core", "gateway.networking.k8s.io.example"}
+	for i, n := 0, r.Range(0, 2); i < n; i++ {
+		switch r.Intn(3) {
+		case 0: // UpstreamSettingsPolicy -> foreign-group "Service" named like a backend Service of our routes
+			ns := rng.Pick(r, w.ns)
+			for _, o := range w.ownRts {
+				if r.Chance(50, 100) {
+					ns = o.GetNamespace()
+				}
+			}
+			usp := &ngfAPI.UpstreamSettingsPolicy{ObjectMeta: p.Meta(ns, fmt.Sprintf("xusp-grp-%d", i), r.Intn(4))}
+			usp.Spec.TargetRefs = []v1alpha2.LocalPolicyTargetReference{
+				{Group: gatewayv1.Group(rng.Pick(r, fgroups)), Kind: "Service", Name: gatewayv1.ObjectName(rng.Pick(r, w.svcs))}}
+			if r.Bool() {
+				usp.Spec.TargetRefs = append(usp.Spec.TargetRefs,
+					v1alpha2.LocalPolicyTargetReference{Group: rng.Pick(r, []gatewayv1.Group{"", "core"}), Kind: "Service", Name: "absent-svc"})
+			}
+			if r.Bool() {
+				usp.Spec.TargetRefs = append(usp.Spec.TargetRefs, v1alpha2.LocalPolicyTargetReference{
+					Group: gatewayv1.Group(rng.Pick(r, fgroups)), Kind: "Service", Name: gatewayv1.ObjectName(rng.Pick(r, w.svcs) + "")})
+				if usp.Spec.TargetRefs[len(usp.Spec.TargetRefs)-1].Name == usp.Spec.TargetRefs[0].Name {
+					usp.Spec.TargetRefs = usp.Spec.TargetRefs[:len(usp.Spec.TargetRefs)-1]
+				}
+			}
+			usp.Spec.ZoneSize = ptr(ngfAPI.Size("7m"))
+			usp.Spec.KeepAlive = &ngfAPI.UpstreamKeepAlive{Connections: ptr(int32(33))}
+			x = append(x, usp)
+			w.tags["x-policy-foreign-group-service"]++
+		case 1: // ObservabilityPolicy -> foreign-group "HTTPRoute"/"GRPCRoute" named like a route of ours
+			if len(w.ownRts) == 0 {
+				continue
+			}
+			o := rng.Pick(r, w.ownRts)
+			kind := p.KindOf(o)
+			if kind == "TLSRoute" {
+				kind = "HTTPRoute"
+			}
+			op := &ngfAPIv2.ObservabilityPolicy{ObjectMeta: p.Meta(o.GetNamespace(), fmt.Sprintf("xobs-grp-%d", i), r.Intn(4))}
+			op.Spec.TargetRefs = []v1alpha2.LocalPolicyTargetReference{
+				{Group: gatewayv1.Group(rng.Pick(r, fgroups)), Kind: gatewayv1.Kind(kind), Name: gatewayv1.ObjectName(o.GetName())}}
+			if r.Bool() {
+				op.Spec.TargetRefs = append(op.Spec.TargetRefs,
+					v1alpha2.LocalPolicyTargetReference{Group: gatewayv1.GroupName, Kind: gatewayv1.Kind(kind), Name: "absent-route"})
+			}
+			op.Spec.Tracing = &ngfAPIv2.Tracing{Strategy: ngfAPIv2.TraceStrategyRatio}
+			x = append(x, op)
+			w.tags["x-policy-foreign-group-route"]++
+		default: // ClientSettingsPolicy -> foreign-group "Gateway" named like a Gateway of ours
+			if len(w.ownGws) == 0 {
+				continue
+			}
+			g := rng.Pick(r, w.ownGws)
+			csp := &ngfAPI.ClientSettingsPolicy{ObjectMeta: p.Meta(g.NS, fmt.Sprintf("xcsp-grp-%d", i), r.Intn(4))}
+			csp.Spec.TargetRef = v1alpha2.LocalPolicyTargetReference{Group: gatewayv1.Group(rng.Pick(r, fgroups)), Kind: "Gateway", Name: gatewayv1.ObjectName(g.Name)}
+			csp.Spec.Body = &ngfAPI.ClientBody{MaxSize: ptr(ngfAPI.Size("3k"))}
+			x = append(x, csp)
+			w.tags["x-policy-foreign-group-gateway"]++
+		}
+	}
 	// BackendTLSPolicies that target a Service none of our routes names: valid ones and one for each way
 	// validateBackendTLSPolicy rejects a policy (graph processing validates EVERY policy of the cluster)
 	nb := r.Intn(3)
